@@ -1,0 +1,27 @@
+//go:build verif
+
+package observation
+
+import (
+	"sync/atomic"
+	"time"
+)
+
+// VerifNow, when set by the verification harness, supplies the arrival time of notifications.
+var VerifNow atomic.Pointer[func() time.Time]
+
+func verifNow(now time.Time) time.Time {
+	if f := VerifNow.Load(); f != nil {
+		return (*f)()
+	}
+	return now
+}
+
+// VerifKeys returns the tokens (hashes) of the registered observations.
+func (h *Handler[C]) VerifKeys() []uint64 {
+	var out []uint64
+	for k := range h.observations.CopyData() {
+		out = append(out, k)
+	}
+	return out
+}
